@@ -216,6 +216,22 @@ class Translator:
         return tx is not None and (tx.replace('_', 'a').isalnum())
 
     # ------------------------------------------------------------------ function translation
+    def cdf_S(self, n1, n2):
+        key = ('CDF', 'S', (n1, n2))
+        if key in self.done: return self.done[key]
+        fd2 = find_cdf_method('S')
+        self.fingerprints['utils/curvedistance.py:MinimumCurveDistanceFinder.S'] = fingerprint(fd2)
+        fd3 = ast.FunctionDef(name='S', args=fd2.args, body=strip_memo(fd2), decorator_list=[], lineno=fd2.lineno)
+        fx = FunTx(self, 'utils/curvedistance.py', None, fd3)
+        t1, t2 = SEGTY[n1], SEGTY[n2]
+        env = {'self': Val('CDF', items=[Val(t1, 'v_bez1'), Val(t2, 'v_bez2')]), 'u': Val('S', 'v_u'), 'v': Val('S', 'v_v')}
+        body = fx.block(fd3.body, env, lambda e: Val('K', const=None), lambda v, e: v)
+        cname = f'curvedistance_S_{n1}_{n2}'
+        self.out['CurveDist'].append(f'(* utils/curvedistance.py: MinimumCurveDistanceFinder.S for orders {n1} x {n2}, line {fd2.lineno} *)\n'
+                                     f'Definition {cname} {{T : Type}} (O : Ops T) (v_bez1 : {coqty(t1)}) (v_bez2 : {coqty(t2)}) (v_u : T) (v_v : T) : T :=\n  {self.text(body)}.\n')
+        self.done[key] = (cname, 'S', 'CurveDist')
+        return self.done[key]
+
     def function(self, cls, name, consts=()):
         """translate method `name` for receiver class `cls` (or module function when cls startswith 'mod:')"""
         key = (cls, name, consts)
@@ -284,6 +300,52 @@ class Translator:
 
 
 RET = {('Line', 'findExtremes'): ('L', 'S')}
+INT_FUNS = {('utils/curvedistance.py', 'C')}
+INLINE_FUNS = {('utils/curvedistance.py', 'A_r'), ('utils/curvedistance.py', 'C_rk'), ('utils/curvedistance.py', 'basis_function')}
+ALIASES = {('utils/curvedistance.py', 'B_k'): 'A_r'}
+
+
+def run_int_function(path, name, args):
+    """int-only helper (binomial coefficient): executed from the source itself at translation time"""
+    import math as _math
+    fd = find_modfun(path, name)
+    ns = {'math': _math}
+    exec(compile(ast.Module(body=[fd], type_ignores=[]), path, 'exec'), ns)
+    r = ns[name](*args)
+    if not isinstance(r, int): raise Untranslatable(f'{name}{tuple(args)} is not an int')
+    return r
+
+
+def strip_memo(fd):
+    """memo tables are semantically transparent (DESIGN 4/C20): recognise exactly the two shapes used and drop them"""
+    body = [b for b in fd.body if not (isinstance(b, ast.Expr) and isinstance(b.value, ast.Constant))]
+    def is_cache_sub(x):
+        return isinstance(x, ast.Subscript) and isinstance(x.value, ast.Attribute) and isinstance(x.value.value, ast.Name) \
+            and x.value.value.id == 'self' and x.value.attr.endswith('Cache')
+    # shape 1: if K not in self.c: self.c[K] = E ; return self.c[K]
+    if len(body) == 2 and isinstance(body[0], ast.If) and isinstance(body[0].test, ast.Compare) and isinstance(body[0].test.ops[0], ast.NotIn) \
+            and len(body[0].body) == 1 and isinstance(body[0].body[0], ast.Assign) and is_cache_sub(body[0].body[0].targets[0]) \
+            and isinstance(body[1], ast.Return) and is_cache_sub(body[1].value) and not body[0].orelse:
+        new = ast.Return(value=body[0].body[0].value)
+        return [ast.copy_location(new, body[1])]
+    # shape 2: if K in self.c: return self.c[K] ; ... ; self.c[K] = v ; return v
+    if len(body) >= 3 and isinstance(body[0], ast.If) and isinstance(body[0].test, ast.Compare) and isinstance(body[0].test.ops[0], ast.In) \
+            and len(body[0].body) == 1 and isinstance(body[0].body[0], ast.Return) and is_cache_sub(body[0].body[0].value) \
+            and isinstance(body[-2], ast.Assign) and is_cache_sub(body[-2].targets[0]) and isinstance(body[-2].value, ast.Name) \
+            and isinstance(body[-1], ast.Return) and isinstance(body[-1].value, ast.Name) and body[-1].value.id == body[-2].value.id:
+        return body[1:-2] + [body[-1]]
+    raise Untranslatable(f'{fd.name}: unrecognised memo shape')
+
+
+def find_cdf_method(name):
+    src, tree = module('utils/curvedistance.py')
+    for n in tree.body:
+        if isinstance(n, ast.ClassDef) and n.name == 'MinimumCurveDistanceFinder':
+            for m in n.body:
+                if isinstance(m, ast.FunctionDef) and m.name == name: return m
+    raise KeyError(name)
+
+
 MODSIG = {
     ('utils/__init__.py', 'quadraticRoots'): ['S', 'S', 'S'],
 }
@@ -556,6 +618,10 @@ class FunTx:
             if a == 't2': return Val('S', f'(snd {v.tx})')
         if v.ty == 'K' and isinstance(v.const, tuple) and v.const[0] == 'class':
             return Val('K', const=('classattr', v.const[1], a))
+        if v.ty == 'CDF':
+            if a == 'bez1': return v.items[0]
+            if a == 'bez2': return v.items[1]
+            if a in ('D', 'S'): return Val('K', const=('cdfmethod', a, v))
         self.fail(f'attribute .{a} of {v.ty!r}', n)
 
     def property_or_method(self, v, a, n):
@@ -732,6 +798,17 @@ class FunTx:
                 self.fail('dynamic zip', n)
             if name in TY_OF_CLASS or name == 'klass' or name == 'Intersection':
                 return self.construct(name, args, n)
+            if (self.path, name) in INT_FUNS or (self.path, ALIASES.get((self.path, name))) in INT_FUNS:
+                if not all(a.ty == 'I' for a in args): self.fail(f'{name} needs translation-time ints', n)
+                return Val('I', const=run_int_function(self.path, ALIASES.get((self.path, name), name), [a.const for a in args]))
+            if (self.path, ALIASES.get((self.path, name), name)) in INLINE_FUNS:
+                fd2 = find_modfun(self.path, ALIASES.get((self.path, name), name))
+                self.tr.fingerprints[f'{self.path}:.{fd2.name}'] = fingerprint(fd2)
+                sub = FunTx(self.tr, self.path, None, fd2)
+                sub.counter = self.counter + 1000 * (1 + len(self.tr.fingerprints))
+                sub.closure_env = {}
+                r = sub.inline(fd2, args, kwargs, n)
+                return r
             if (self.path, name) in MODSIG or self.modfun_path(name):
                 p = self.modfun_path(name)
                 return self.call_modfun(p, name, args, kwargs, n)
@@ -763,6 +840,15 @@ class FunTx:
                 return self.callfun(cls, a, [recv] + vals, n, consts)
             if kind == 'localfun':
                 return self.inline(self.localfuns[fv.const[1]], args, kwargs, n)
+            if kind == 'cdfmethod':
+                _, mname, recv = fv.const
+                fd2 = find_cdf_method(mname)
+                self.tr.fingerprints[f'utils/curvedistance.py:MinimumCurveDistanceFinder.{mname}'] = fingerprint(fd2)
+                fd3 = ast.FunctionDef(name=fd2.name, args=fd2.args, body=strip_memo(fd2), decorator_list=[], lineno=fd2.lineno)
+                sub = FunTx(self.tr, 'utils/curvedistance.py', None, fd3)
+                sub.counter = self.counter + 100000
+                sub.closure_env = {}
+                return sub.inline(fd3, [recv] + args, kwargs, n)
         self.fail(f'call of {ast.dump(f)[:80]}', n)
 
     def modfun_path(self, name):
@@ -828,7 +914,9 @@ class FunTx:
                 env[p] = Val(v.ty, nm)
             else: env[p] = v
         body = self.block(fd.body, env, lambda e: Val('K', const=None), lambda v, e: v)
-        if not lets: return body
+        if body.ty in ('I', 'K', 'FL', 'TUP'): 
+            if lets: self.fail('inlined function returns translation-time structure under lets', n)
+            return body
         return Val(self.tr.rtype(body), '(' + ''.join(lets) + self.tr.text(body) + ')')
 
     # ------------------------------------------------------------------ statements
@@ -1252,7 +1340,7 @@ TARGETS += [('QuadraticBezier', 'derivative'), ('CubicBezier', 'derivative'),
             ('Line', '_bothPointsAreOnSameSideOfOrigin'), ('Line', '_line_line_intersections'),
             ('QuadraticBezier', '_curve_line_intersections_t'), ('CubicBezier', '_curve_line_intersections_t'),
             ('QuadraticBezier', '_curve_line_intersections'), ('CubicBezier', '_curve_line_intersections'),
-            ]
+            ] + [('CDF', 'S', (a, b)) for a in (2, 3, 4) for b in (2, 3, 4)]
 
 
 def header(file, deps):
@@ -1270,7 +1358,8 @@ def generate(outdir, targets=None):
         cls, name = t[0], t[1]
         consts = t[2] if len(t) > 2 else ()
         try:
-            tr.function(cls, name, consts)
+            if cls == 'CDF': tr.cdf_S(*consts)
+            else: tr.function(cls, name, consts)
         except Untranslatable as e:
             errors.append({'function': f'{cls}.{name}', 'error': str(e)})
             tr.inprogress.clear()
